@@ -676,7 +676,6 @@ func (c *collect) Fatalf(format string, args ...any) {
 	panic(errStop)
 }
 
-
 // loadCallSites reads the helper package's source and notes which kind of call site sits on which line, so that the
 // oracle can tell two lines of one file apart (same text, same severity, same file - not identical lines).
 func loadCallSites() {
